@@ -747,6 +747,15 @@ func ruleHistoryIndependence(c *Check, w *World, tb *TB, ef *Effects, rule strin
 	sortFuncs(fns)
 	ruleNoPkgState(c, w, tb, ef, rule, fns)
 	ruleNoConcurrencyPrimitives(c, w, rule, fns)
+	// scratch memory on the path is exclusively owned while in use, and results do not alias it
+	var lib []*ssa.Function
+	for _, f := range fns {
+		if fnPkgPath(f) == OtpPath {
+			lib = append(lib, f)
+		}
+	}
+	rulePoolDiscipline(c, w, tb, rule, lib)
+	ruleUnsafeView(c, w, tb, rule, lib)
 }
 
 func sortFuncs(fns []*ssa.Function) {
